@@ -238,8 +238,9 @@ func (h *H) setupRegistries() {
 	h.PairSet = true
 	if h.PairSet {
 		h.PairDomain = verifrt.NondetU32("pair_domain")
+		// linked through the transaction a remote token is 32 bytes; a genesis file may hold any length
 		h.PairToken = verifrt.NondetBytes("pair_token", 32)
-		verifrt.Assume(len(h.PairToken) == 32)
+		verifrt.Assume(verifrt.Any(len(h.PairToken) == 32, len(h.PairToken) == 20))
 		h.PairLocal = verifrt.NondetString("pair_local", 4)
 		verifrt.Assume(asciiStr(h.PairLocal))
 		h.K.SetTokenPair(ctx, types.TokenPair{RemoteDomain: h.PairDomain, RemoteToken: h.PairToken, LocalToken: h.PairLocal})
